@@ -4,7 +4,7 @@
 (*                                                                                        *)
 (* Data = sequence of runs.  A run is a record of scaled integers (round(x * S)):            *)
 (*   kind     "bpi" | "ga"                                                                 *)
-(*   S        scale;  teq / tmono  tolerances in units of 1/S (derived in the driver)        *)
+(*   S        scale;  teq / tmono / trow  tolerances in units of 1/S (derived in the driver)  *)
 (*   rows     every row of the returned controller (action rows, node-transition rows, the   *)
 (*            initial node distribution)                                                    *)
 (*   rep      value reported by the learner                                                 *)
@@ -29,10 +29,13 @@ vars == <<tid, l, V, bad>>
 
 Run == Data[tid]
 
-RowOK(r, S) ==
-  /\ \A i \in 1..Len(r) : r[i] >= 0 /\ r[i] <= S + 1
-  /\ AbsI(SumTo(r, Len(r)) - S) <= Len(r)
-RowsOK(run) == \A i \in 1..Len(run.rows) : RowOK(run.rows[i], run.S)
+\* a row of floats is "numerically a probability distribution": entries and sum inside the window run.trow
+\* (units of 1/S; the window msdm's own evaluator applies when it accepts a controller, see the driver)
+\* plus the rounding of the quantisation (half a unit per entry)
+RowOK(r, S, t) ==
+  /\ \A i \in 1..Len(r) : r[i] >= -t /\ r[i] <= S + t
+  /\ AbsI(SumTo(r, Len(r)) - S) <= t + Len(r)
+RowsOK(run) == \A i \in 1..Len(run.rows) : RowOK(run.rows[i], run.S, run.trow)
 
 TabClose(x, y, tol) ==
   /\ Len(x) = Len(y)
